@@ -252,6 +252,10 @@ PROPS = {
         assumptions=["INT-CTXT and IND-CPA of XSalsa20-Poly1305; unpredictability/non-repetition of crypto/rand nonces"],
     ),
     "C20": dict(
+        # the authorization entry points, the time checks and ToSealed translate into PURE functions of the token's fields: go2lean
+        # refuses an assignment to a field and any call it does not know, so a read path that starts writing to the token (a memo, a
+        # cache, an in-place sort) no longer translates and these obligations break
+        tie=["Ucan.Props.Tie.ChainEntry", "Ucan.Props.Tie.ChainAllowed", "Ucan.Props.Tie.ChainArgs", "Ucan.Props.Tie.ChainTime", "Ucan.Props.Tie.Sealed"],
         props_module="Ucan.Props.C20",
         streams=["immut"],
         extra=[dict(name="racecheck", pkg="./cmd/racecheck", build_flags=["-race"], timeout=600,
